@@ -836,6 +836,11 @@ class Engine:
         self.candidates.append(Candidate(label, self.witness(m), detail))
         raise PathStop()
 
+    def passed(self, n=1):
+        """Record n obligations that were evaluated on concrete (case-split) values and hold."""
+        self.stats["obligations"] += n
+        self.stats["discharged"] += n
+
     def cp_value(self, cp_id):
         """The single value of a leaf code point if the path has pinned it, else None."""
         d = self.dom.get(cp_id)
